@@ -679,6 +679,25 @@ fn maybe_runtype_any_of_discriminated(
                             })
                             .collect::<BTreeSet<_>>();
 
+                        // a tag carried by every variant (`{k: "a" | "b"} | {k: "b"}`) selects the whole union
+                        // again: dispatching on this property would print the same union forever
+                        let separates = discriminator_strings.iter().all(|tag| {
+                            object_vs.iter().any(|vs| {
+                                !extract_union(
+                                    vs.get(&discriminator)
+                                        .expect("we already checked the discriminator exists")
+                                        .inner(),
+                                    named_schemas,
+                                )
+                                .into_iter()
+                                .filter_map(|it| it.extract_single_string_const())
+                                .any(|it| it == *tag)
+                            })
+                        });
+                        if !separates {
+                            continue;
+                        }
+
                         return Some(runtype_any_of_discriminated(
                             original_runtype,
                             flat_values,
